@@ -96,6 +96,15 @@ func (h *ByronMainBlockHeader) UnmarshalCBOR(cborData []byte) error {
 	return nil
 }
 
+func (h *ByronMainBlockHeader) MarshalCBOR() ([]byte, error) {
+	// Return the original CBOR if available so that re-encoding a decoded
+	// object reproduces the exact bytes it was decoded from
+	if h.Cbor() != nil {
+		return h.Cbor(), nil
+	}
+	return cbor.EncodeGeneric(h)
+}
+
 func (h *ByronMainBlockHeader) Hash() common.Blake2b256 {
 	if h.hash == nil {
 		// Prepend bytes for CBOR list wrapper
@@ -186,6 +195,15 @@ func (t *ByronTransactionBody) UnmarshalCBOR(cborData []byte) error {
 	*t = ByronTransactionBody(tmp)
 	t.SetCbor(cborData)
 	return nil
+}
+
+func (t *ByronTransactionBody) MarshalCBOR() ([]byte, error) {
+	// Return the original CBOR if available so that re-encoding a decoded
+	// object reproduces the exact bytes it was decoded from
+	if t.Cbor() != nil {
+		return t.Cbor(), nil
+	}
+	return cbor.EncodeGeneric(t)
 }
 
 func (t *ByronTransactionBody) Id() common.Blake2b256 {
@@ -820,6 +838,15 @@ func (o *ByronTransactionOutput) UnmarshalCBOR(data []byte) error {
 	return nil
 }
 
+func (o *ByronTransactionOutput) MarshalCBOR() ([]byte, error) {
+	// Return the original CBOR if available so that re-encoding a decoded
+	// object reproduces the exact bytes it was decoded from
+	if o.Cbor() != nil {
+		return o.Cbor(), nil
+	}
+	return cbor.EncodeGeneric(o)
+}
+
 func (o ByronTransactionOutput) ToPlutusData() data.PlutusData {
 	var valueData [][2]data.PlutusData
 	if o.OutputAmount > 0 {
@@ -1064,6 +1091,15 @@ func (h *ByronEpochBoundaryBlockHeader) UnmarshalCBOR(cborData []byte) error {
 	return nil
 }
 
+func (h *ByronEpochBoundaryBlockHeader) MarshalCBOR() ([]byte, error) {
+	// Return the original CBOR if available so that re-encoding a decoded
+	// object reproduces the exact bytes it was decoded from
+	if h.Cbor() != nil {
+		return h.Cbor(), nil
+	}
+	return cbor.EncodeGeneric(h)
+}
+
 func (h *ByronEpochBoundaryBlockHeader) Hash() common.Blake2b256 {
 	if h.hash == nil {
 		// Prepend bytes for CBOR list wrapper
@@ -1138,6 +1174,15 @@ func (b *ByronMainBlock) UnmarshalCBOR(cborData []byte) error {
 	return nil
 }
 
+func (b *ByronMainBlock) MarshalCBOR() ([]byte, error) {
+	// Return the original CBOR if available so that re-encoding a decoded
+	// object reproduces the exact bytes it was decoded from
+	if b.Cbor() != nil {
+		return b.Cbor(), nil
+	}
+	return cbor.EncodeGeneric(b)
+}
+
 func (ByronMainBlock) Type() int {
 	return BlockTypeByronMain
 }
@@ -1210,6 +1255,15 @@ func (b *ByronEpochBoundaryBlock) UnmarshalCBOR(cborData []byte) error {
 	*b = ByronEpochBoundaryBlock(tmp)
 	b.SetCbor(cborData)
 	return nil
+}
+
+func (b *ByronEpochBoundaryBlock) MarshalCBOR() ([]byte, error) {
+	// Return the original CBOR if available so that re-encoding a decoded
+	// object reproduces the exact bytes it was decoded from
+	if b.Cbor() != nil {
+		return b.Cbor(), nil
+	}
+	return cbor.EncodeGeneric(b)
 }
 
 // BodyCbor returns the original CBOR bytes of the epoch boundary block body,
